@@ -168,3 +168,73 @@ Definition deserialize (reg : list cls) (j : jv) : option (nat * nat * pv) :=   
       end
   | _ => None
   end.
+
+(* ---------- correspondence interface ---------- *)
+Definition fl_eqb (a b : fl) : bool :=
+  match a, b with FFin x, FFin y => Z.eqb x y | FInf, FInf | FNegInf, FNegInf | FNaN, FNaN => true | _, _ => false end.
+Fixpoint pv_eqb (a b : pv) : bool :=
+  match a, b with
+  | PNone, PNone => true
+  | PBool x, PBool y => Bool.eqb x y
+  | PInt x, PInt y => Z.eqb x y
+  | PFloat x, PFloat y => fl_eqb x y
+  | PStr x, PStr y => str_eqb x y
+  | PEnum x, PEnum y => Nat.eqb x y
+  | PList l, PList m | PSet l, PSet m =>
+      (fix go (l m : list pv) : bool := match l, m with [], [] => true | x :: l', y :: m' => pv_eqb x y && go l' m' | _, _ => false end) l m
+  | PDict l, PDict m =>
+      (fix go (l m : list (pv * pv)) : bool :=
+         match l, m with [], [] => true | (k, x) :: l', (k', y) :: m' => pv_eqb k k' && pv_eqb x y && go l' m' | _, _ => false end) l m
+  | PModel l, PModel m =>
+      (fix go (l m : list (nat * pv)) : bool :=
+         match l, m with [], [] => true | (f, x) :: l', (g, y) :: m' => Nat.eqb f g && pv_eqb x y && go l' m' | _, _ => false end) l m
+  | _, _ => false
+  end.
+Fixpoint jv_eqb (a b : jv) : bool :=
+  match a, b with
+  | JNull, JNull => true
+  | JBool x, JBool y => Bool.eqb x y
+  | JInt x, JInt y => Z.eqb x y
+  | JFloat x, JFloat y => Z.eqb x y
+  | JStr x, JStr y => str_eqb x y
+  | JArr l, JArr m =>
+      (fix go (l m : list jv) : bool := match l, m with [], [] => true | x :: l', y :: m' => jv_eqb x y && go l' m' | _, _ => false end) l m
+  | JObj l, JObj m =>
+      (fix go (l m : list (str * jv)) : bool :=
+         match l, m with [], [] => true | (k, x) :: l', (k', y) :: m' => str_eqb k k' && jv_eqb x y && go l' m' | _, _ => false end) l m
+  | _, _ => false
+  end.
+
+Inductive input :=
+| IMsg (reg : list cls) (c : cls) (v : pv)          (* a message object sent over the wire *)
+| IEnv (reg : list cls) (j : jv).                   (* an arbitrary (malformed) envelope handed to deserialize *)
+Definition result := option (nat * nat * pv).       (* namespace, class name, value -- or a protocol error *)
+Definition output := (option jv * result)%type.     (* the JSON on the wire (for IMsg), what deserialize returns *)
+Definition run (i : input) : output :=
+  match i with
+  | IMsg reg c v => (Some (serialize c v), deserialize reg (serialize c v))
+  | IEnv reg j => (None, deserialize reg j)
+  end.
+Definition result_eqb (a b : result) : bool :=
+  match a, b with
+  | None, None => true
+  | Some (ns, n, v), Some (ns', n', v') => Nat.eqb ns ns' && Nat.eqb n n' && pv_eqb v v'
+  | _, _ => false
+  end.
+Definition out_eqb (a b : output) : bool :=
+  match fst a, fst b with Some x, Some y => jv_eqb x y | None, None => true | _, _ => false end && result_eqb (snd a) (snd b).
+(* the property on the observation: a message comes back unchanged and with the same type; an envelope that names no
+   registered class (or lacks _type / _ns) is rejected *)
+Definition named_class (reg : list cls) (j : jv) : bool :=
+  match j with
+  | JObj l => match lookup (SId K_type) l, lookup (SId K_ns) l with
+              | Some (JStr (SId n)), Some (JStr (SId ns)) => existsb (fun c => Nat.eqb (c_ns c) ns && Nat.eqb (c_name c) n) reg
+              | _, _ => false
+              end
+  | _ => false
+  end.
+Definition holds_b (i : input) (o : output) : bool :=
+  match i with
+  | IMsg reg c v => result_eqb (snd o) (Some (c_ns c, c_name c, v))
+  | IEnv reg j => named_class reg j || match snd o with None => true | Some _ => false end
+  end.
